@@ -5,8 +5,27 @@ Import ListNotations.
 Require Import Verif.lib.PyLite Verif.gen.BananaGen Verif.gen.SchemaGen Verif.lib.Schema Verif.lib.SchemaProofs.
 Local Open Scope Z_scope.
 
-(* The full statement   forall c o, checkObject c o = true -> recvw (Some c) (slice o) = RDeliver o
-   is FALSE on the current tree; each excluded region has its witness: *)
+(* "If a value passes the schema check that callRemote applies before sending, then the receiver using the same schema
+   accepts its serialized form": for every well-formed constraint tree c and value o, inside the guarded region
+   (c12_guard: no OPEN-sequence value in a ChoiceOf / nested-Optional slot, no integer of 2^8000 or more in an Any slot):
+   every token-level check of the receiver (tasters with the 2^31 and 2^(8*maxBytes) splits of the TRANSLATED sendToken,
+   checkOpentype, setConstraint hand-down, list/set/dict "full" tests, tuple arity, the 6*maxLength text bound) accepts
+   every token of the honest serialization and the very same object is delivered. *)
+Theorem C12_sender_accepts_receiver_delivers : forall c o,
+  wf c = true -> owf o = true -> c12_guard c o = true -> checkObject c o = true ->
+  recvw (Some c) (slice o) = RDeliver o.
+Proof. exact c12_main. Qed.
+Print Assumptions C12_sender_accepts_receiver_delivers.
+
+(* the same for a whole call of a one-argument method: callRemote's outbound checkAllArgs, the wire, ArgumentUnslicer,
+   the inbound checkAllArgs in _doCall, and the invocation with the same object *)
+Theorem C12_call_delivered : forall c o,
+  wf c = true -> owf o = true -> c12_guard c o = true ->
+  forall p k, send_call (ms1 c) [o] [] = Some (p, k) -> recv_call (ms1 c) p k = CInvoke [o] [].
+Proof. exact c12_call1. Qed.
+Print Assumptions C12_call_delivered.
+
+(* The full statement (without c12_guard) is FALSE on the current tree; each excluded region has its witness: *)
 Theorem C12_refuted_choice :        (* D7a, oracle/choiceof-container-drops-connection *)
   checkObject d7a_ctr (OList [OInt 1; OInt 2]) = true /\ recvw (Some d7a_ctr) (slice (OList [OInt 1; OInt 2])) = RAbort.
 Proof. exact SchemaProofs.C12_refuted_choice. Qed.
